@@ -193,13 +193,11 @@ class MessageDispatcher(ClientMessageSink):
     return ar
 
   def _DispatchMethod(self, method, args, kwargs, timeout, start_time):
-    open_time = time.time()
-    open_latency = open_time - start_time
-
     if timeout:
-      # Calculate the deadline for this method call.
-      # Reduce it by the time it took for the open() to complete.
-      deadline = start_time + timeout - open_latency
+      # Calculate the (absolute) deadline for this method call.  Time spent
+      # waiting for open() to complete counts against the timeout simply
+      # because the deadline is relative to when the call was made.
+      deadline = start_time + timeout
     else:
       deadline = None
 
